@@ -46,7 +46,8 @@ def distinct_nums(rng, k, lo=-64, hi=64):
 def gen_params(rng, cmd, n, data_values=None, hostile=False):
     """Admissible parameters. hostile: thresholds / values far outside the fuzzy range (C04)."""
     big = (lambda: rng.choice([1e6, -1e6, 1e-9, 3.5, -7, 1e3, num(rng)])) if hostile else (lambda: num(rng))
-    fz = (lambda: rng.randint(-8, 8) / 8.0) if not hostile else big
+    wide = rng.random() < 0.3
+    fz = ((lambda: rng.randint(-40, 40) / 8.0) if wide else (lambda: rng.randint(-8, 8) / 8.0)) if not hostile else big
     dv = data_values or [0.0, 1.0]
     pick = lambda: rng.choice(dv) if rng.random() < 0.5 else num(rng)
     p = {}
